@@ -630,6 +630,21 @@ pub fn gen_module(r: &mut Rng, cfg: &Cfg) -> Module {
             let off = r.below(65536 - 64) as u32;
             m.data.push((off, (0..len).map(|_| r.next() as u8).collect()));
         }
+        // later segments overwrite earlier ones: overlapping segments, also all-zero ones
+        if !m.data.is_empty() && r.chance(1, 3) {
+            let (off, len) = {
+                let d = r.pick(&m.data);
+                (d.0, d.1.len())
+            };
+            let shift = r.below(len as u64 + 1) as u32;
+            let n = (r.below(len as u64 + 8) as usize).min(65536 - (off + shift) as usize);
+            let bytes: Vec<u8> = match r.below(3) {
+                0 => vec![0; n],
+                1 => (0..n).map(|i| if i % 2 == 0 { 0 } else { r.next() as u8 }).collect(),
+                _ => (0..n).map(|_| r.next() as u8).collect(),
+            };
+            m.data.push((off + shift, bytes));
+        }
     }
     for _ in 0..r.below(4) {
         let ty = rty(r);
